@@ -406,6 +406,11 @@ func (h *OperationProvider) validateCoreIndexFile(cif *models.CoreIndexFile) err
 		return errors.New("missing core proof file URI")
 	}
 
+	// the deltas of create and recover operations are in the chunk file, which is referenced by the provisional index file
+	if cif.Operations != nil && len(cif.Operations.Create)+recoverNum > 0 && cif.ProvisionalIndexFileURI == "" {
+		return errors.New("missing provisional index file URI")
+	}
+
 	if recoverNum+deactivateNum == 0 && len(cif.CoreProofFileURI) > 0 {
 		return errors.New("core proof file URI should be empty if there are no recover and/or deactivate operations")
 	}
